@@ -368,6 +368,10 @@ func genWith(fill bool) func(rt *rapid.T) Case {
 			}
 			if fill {
 				s.Fill = rapid.IntRange(0, 3).Draw(rt, "fill")
+				if rapid.IntRange(0, 5).Draw(rt, "longfill?") == 0 {
+					// runs as long as the scanner's 64-byte look-ahead and its multiples (any number of fill bytes is legal)
+					s.Fill = rapid.SampledFrom([]int{61, 62, 63, 64, 65, 126, 127, 128, 129, 191, 192, 255, 256, 1000}).Draw(rt, "longfill")
+				}
 			}
 			if s.Kind != "exif" && s.Kind != "xmp" && nExif+nXMP == 0 {
 				before++
